@@ -39,3 +39,9 @@ package common
 //@   trusted_frame returned slices are not tracked as fresh; in-place append into spare capacity cannot be excluded
 //@   ensures len(r) == 5
 //@   ensures r[0] == byte(un >> 24) && r[1] == byte(un >> 16) && r[2] == byte(un >> 8) && r[3] == byte(un) && r[4] == 0x55
+//@ func crypto/common.ZeroPad(b, m) (r, err)
+//@   inline
+//@   requires m <= 4096
+//@ func crypto/common.PKCS7Pad(b, m) (r, err)
+//@   inline
+//@   requires m <= 4096
